@@ -416,11 +416,17 @@ func (r *lsmRun) snapshotReads() map[string]string {
 
 // commitOne commits a one-key transaction (a put, a put that is already expired, or a delete)
 // and reports the commit version it got.
-func (r *lsmRun) commitOne() {
+func (r *lsmRun) commitOne() { r.commitKind(-1) }
+
+// commitKind: kind 0 = delete, 1 = already expired put, 2.. = put, -1 = random.
+func (r *lsmRun) commitKind(forced int) {
 	user := corr.Pick(r.c.Rng, lsmUserKeys)
 	r.seq++
 	val := []byte(fmt.Sprintf("t%d", r.seq))
 	kind := r.c.Rng.Intn(5)
+	if forced >= 0 {
+		kind = forced
+	}
 	meta, exp := byte(0), uint64(0)
 	txn := r.db.NewTransaction(true)
 	var err error
@@ -588,6 +594,10 @@ func (r *lsmRun) program(p lsmProfile) {
 
 // scripted regression programs, run before the random ones
 var lsmScripts = map[string][]string{
+	// the highest versions belong to expired entries that a compaction rewrites as stale: reopen must still seed the oracle above them
+	"ttl_compact_reopen": {"commit", "commit", "commit_exp", "commit_exp", "commit_exp", "rotate", "flush", "move", "drain", "read", "reopen", "read", "commit", "read"},
+	// three L0 tables, the middle one disjoint from the first: an L0 move must take an oldest-first prefix
+	"l0_prefix_plain": {"put a 1", "put c 2", "rotate", "flush", "put m 3", "put p 4", "rotate", "flush", "put c 5", "put m 6", "put n 7", "rotate", "flush", "move", "read", "move", "read", "move", "read"},
 	// one key with more versions (bytes) than an output table may hold: compaction must not split a key's versions over two tables
 	"hot_key": {"putv a 1 1", "big h 1", "big h 2", "big h 3", "big h 4", "big h 5", "big h 6", "big h 7", "big h 8", "big h 9", "big h 10", "big h 11", "big h 12", "putv z 1 2", "rotate", "flush", "move", "drain", "read", "reopen", "read"},
 	// newest versions live only in an ingest buffer when the DB is reopened: the next commit timestamp must still exceed them
@@ -648,6 +658,8 @@ func (r *lsmRun) script(steps []string, plain bool) {
 			maint++
 		case "commit":
 			r.commitOne()
+		case "commit_exp":
+			r.commitKind(1)
 		case "read":
 			r.readAll(plain)
 		}
@@ -703,11 +715,11 @@ func runLsm(c *corr.Ctx) error {
 		n = c.Scale(5, 400)
 	}
 	if plain {
-		for _, name := range []string{"l0_tie", "ingest_tie", "ingest_tie2", "drain_overlap_plain", "ingest_over_main_plain"} {
+		for _, name := range []string{"l0_tie", "ingest_tie", "ingest_tie2", "drain_overlap_plain", "ingest_over_main_plain", "l0_prefix_plain"} {
 			runScriptLsm(c, name, true)
 		}
 	} else if c.Prop == "C12" {
-		for _, name := range []string{"ingest_reopen", "ttl_reopen", "mono"} {
+		for _, name := range []string{"ingest_reopen", "ttl_reopen", "ttl_compact_reopen", "mono"} {
 			runScriptLsm(c, name, false)
 		}
 	} else {
